@@ -29,6 +29,11 @@ type C05Case struct {
 	Next       *Block `json:"next,omitempty"` // an honest follow-up block
 	// Share: 0 = every call gets fresh copies; k>0 = the same slices go to every implementation, applied in order permutation k-1
 	Share int `json:"share,omitempty"`
+	// Reorg: after the accepted block every forest is taken back with Undo (record: the block's targets
+	// and hashes as they were handed over, the canonical proof hashes; a full map forest gets the targets
+	// only) and this other honest block, drawn on the state BEFORE the accepted one, is applied instead:
+	// an accepted block must also be un-applied identically. Replaces Next.
+	Reorg *Block `json:"reorg,omitempty"`
 }
 
 func genC05(t *rapid.T) C05Case {
@@ -100,6 +105,16 @@ func genC05(t *rapid.T) C05Case {
 	c.FullVerify = rapid.Bool().Draw(t, "fullverify")
 	if rapid.Bool().Draw(t, "share") {
 		c.Share = rapid.IntRange(1, 24).Draw(t, "order")
+	}
+	if rapid.IntRange(0, 3).Draw(t, "reorg") == 0 {
+		small := lim
+		if small.maxAdd > 60 {
+			small.maxAdd = 60
+		}
+		rb := genBlock(t, f.Clone(), small, true)
+		rb.Salt = 5
+		c.Reorg = &rb
+		return c
 	}
 	g := f.Clone()
 	applyToModel(g, Block{Del: c.Del, Add: c.Add})
@@ -385,6 +400,8 @@ func runC05(c C05Case) *Result {
 			pool = append(pool[:idx:idx], pool[idx+1:]...)
 		}
 	}
+	before := f.Clone()
+	stumpBefore := copyStump(*stump)
 	for _, i := range order {
 		if err := steps[i](); err != nil {
 			return res.failf("%v", err)
@@ -396,6 +413,30 @@ func runC05(c C05Case) *Result {
 		if err := in.checkRoots(v2); err != nil {
 			return res.failf("after applying the accepted block (%s encoding, targets %v, %d proof hashes, %d adds): %v", c.Enc, enc.Targets, len(enc.Proof), c.Add, err)
 		}
+	}
+	if c.Reorg != nil {
+		res.class("reorganised")
+		for _, in := range ls.insts[1:] {
+			ph := canon.Proof
+			if in.M != nil && in.M.Full {
+				ph = nil // a full forest rebuilds the proof hashes itself
+			}
+			in.ar.next()
+			if err := in.Acc().Undo(uint64(c.Add), in.ar.proofTH(enc.Targets, ph), in.ar.hashes(encH), in.ar.hashes(v.Roots)); err != nil {
+				return res.failf("%s: Undo of the accepted %s-encoded block (targets %v, %d adds) failed: %v", in.Cfg, c.Enc, enc.Targets, c.Add, err)
+			}
+		}
+		*stump = stumpBefore
+		ls.f = before
+		for _, in := range ls.insts {
+			if err := in.checkRoots(v); err != nil {
+				return res.failf("after undoing the accepted %s-encoded block: %v", c.Enc, err)
+			}
+		}
+		if err := ls.step(len(c.Blocks)+1, *c.Reorg); err != nil {
+			return res.failf("another honest block applied after the accepted %s-encoded block (targets %v) was undone: %v", c.Enc, enc.Targets, err)
+		}
+		return res
 	}
 	if c.Next != nil {
 		res.class("followup")
